@@ -4,7 +4,7 @@
 From Coq Require Import Sorting.Sorted Sorting.Permutation.
 From GoCar Require Import Bytes Varint Cid Header Frame V2Header Scan Index Store Wf.
 From GoCarProofs Require Import BytesFacts VarintFacts CidFacts HeaderFacts ScanFacts
-     FinalBytes FinalOrder FinalIndex FinalStore.
+     FinalBytes FinalOrder FinalIndex FinalStore FinalCid.
 
 (* a block a writer can be handed: the key is a CID as go-cid produces it, and LdWrite can frame
    the section (its length varint buffer has 8 bytes) *)
@@ -186,13 +186,14 @@ Definition stored_ok (o : wopts) (b : block) : Prop :=
   put_ok b /\ blen (fst b) <= w_maxcid o /\
   forall p, cid_parse (fst b) = Some p -> (w_storeid o || negb (is_identity p)) = true.
 
-Lemma spec_stored_ok k o ro h : Forall (Forall put_ok) h -> Forall (stored_ok o) (spec_stored k o ro h).
+Lemma spec_stored_ok k o ro h : Forall (Forall frameable) h -> Forall (stored_ok o) (spec_stored k o ro h).
 Proof.
   intros Hh. apply spec_stored_inv. intros x stored p Hx Hp Hs.
   destruct (should_put_true _ _ _ _ Hs) as [H1 H2].
   split; [|split; [exact H2|]].
-  - apply in_concat in Hx. destruct Hx as (b & Hb & Hxb). rewrite Forall_forall in Hh.
-    specialize (Hh b Hb). rewrite Forall_forall in Hh. apply Hh. exact Hxb.
+  - split; [exact (cid_parse_ok _ _ Hp)|].
+    apply in_concat in Hx. destruct Hx as (b & Hb & Hxb). rewrite Forall_forall in Hh.
+    specialize (Hh b Hb). rewrite Forall_forall in Hh. exact (Hh x Hxb).
   - intros p' Hp'. rewrite Hp in Hp'. inversion Hp'; subst. exact H1.
 Qed.
 
